@@ -18,6 +18,9 @@ const MAX_BLUE_ZONES: usize = MAX_BLUES + MAX_OTHER_BLUES;
 // <https://gitlab.freedesktop.org/freetype/freetype/-/blob/80a507a6b8e3d2906ad2c8ba69329bd2fb2a85ef/src/psaux/pshints.h#L47>
 const MAX_HINTS: usize = 96;
 
+/// Maximum number of hint edges in a hint map (FreeType: CF2_MAX_HINT_EDGES).
+const MAX_HINT_EDGES: usize = MAX_HINTS * 2;
+
 // One bit per stem hint
 // <https://gitlab.freedesktop.org/freetype/freetype/-/blob/80a507a6b8e3d2906ad2c8ba69329bd2fb2a85ef/src/psaux/pshints.h#L80>
 const HINT_MASK_SIZE: usize = MAX_HINTS.div_ceil(8);
@@ -478,7 +481,7 @@ impl Hint {
 /// <https://gitlab.freedesktop.org/freetype/freetype/-/blob/80a507a6b8e3d2906ad2c8ba69329bd2fb2a85ef/src/psaux/pshints.h#L126>
 #[derive(Copy, Clone)]
 struct HintMap {
-    edges: [Hint; MAX_HINTS],
+    edges: [Hint; MAX_HINT_EDGES],
     len: usize,
     is_valid: bool,
     scale: Fixed,
@@ -487,7 +490,7 @@ struct HintMap {
 impl HintMap {
     fn new(scale: Fixed) -> Self {
         Self {
-            edges: [Hint::default(); MAX_HINTS],
+            edges: [Hint::default(); MAX_HINT_EDGES],
             len: 0,
             is_valid: false,
             scale,
@@ -545,7 +548,7 @@ impl HintMap {
             return;
         }
         let edge_count = if is_pair { 2 } else { 1 };
-        if self.len + edge_count > MAX_HINTS {
+        if self.len + edge_count > MAX_HINT_EDGES {
             // Won't fit. Again, ignore.
             return;
         }
